@@ -796,6 +796,12 @@ class ModulePrinter(ExpressionPrinter):
     # endregion
 
     def visit_Module(self, node):
+        for statement in node.body:
+            # The unicode_literals future import applies to the whole module, including a docstring that comes before it
+            if isinstance(statement, ast.ImportFrom) and statement.module == '__future__':
+                if 'unicode_literals' in [alias.name for alias in statement.names]:
+                    self.printer.unicode_literals = True
+
         if hasattr(node, 'docstring') and node.docstring is not None:
             # Python 3.6 added a docstring field! Really useful for every use case except this one...
             # Put the docstring back into the body
